@@ -448,8 +448,15 @@ func (r *Reader) readReflect(v interface{}) error {
 		// 创建切片并读取每个元素
 		// 长度来自输入：每个元素在线路上至少占 minWireSize 字节，超过剩余数据可容纳的数量即为损坏/截断的数据，
 		// 必须在分配之前拒绝（否则 4 个字节的输入即可请求数十 GiB 的内存）
-		if min := minWireSize(rv.Type().Elem(), 0); min > 0 && int(length) > r.RemainingSize()/min {
-			r.err = io.ErrUnexpectedEOF
+		if min := minWireSize(rv.Type().Elem(), 0); min > 0 {
+			if int(length) > r.RemainingSize()/min {
+				r.err = io.ErrUnexpectedEOF
+				return r.err
+			}
+		} else if limit := zeroWidthElemLimit(rv.Type().Elem()); int(length) > limit {
+			// 元素在线路上不占任何字节（无可导出字段的结构体等），无法用剩余数据量校验长度：
+			// 否则 4 个字节的输入即可驱动 2^32 次循环，且元素在内存中仍可能占用空间
+			r.err = fmt.Errorf("slice of %d zero-width elements exceeds the limit of %d", length, limit)
 			return r.err
 		}
 		slice := reflect.MakeSlice(rv.Type(), int(length), int(length))
@@ -523,6 +530,9 @@ func (r *Reader) readReflect(v interface{}) error {
 // vals 是要读取的变量指针列表，按顺序依次读取
 // 如果任何读取操作失败，会立即返回错误
 // minWireSize 返回类型 t 的一个值在线路上至少占用的字节数（仅无任何可导出字段的结构体为 0）
+//
+// depth 只统计指针解引用的层数：类型只能经由指针形成环，按值嵌套的结构体层数必然有限；
+// 若按值嵌套也计入深度，嵌套较深的合法类型会得到 0（未知），从而使调用方的长度校验失效
 func minWireSize(t reflect.Type, depth int) int {
 	if depth > 8 {
 		return 0
@@ -532,7 +542,7 @@ func minWireSize(t reflect.Type, depth int) int {
 		size := 0
 		for i := 0; i < t.NumField(); i++ {
 			if f := t.Field(i); f.PkgPath == "" {
-				size += minWireSize(f.Type, depth+1)
+				size += minWireSize(f.Type, depth)
 			}
 		}
 		return size
@@ -543,6 +553,15 @@ func minWireSize(t reflect.Type, depth int) int {
 	default:
 		return 1
 	}
+}
+
+// zeroWidthElemLimit 返回线路宽度为 0 的元素类型允许的最大切片长度：至多 16384 个元素且元素本身不超过 512 KiB 内存
+func zeroWidthElemLimit(t reflect.Type) int {
+	limit := 1 << 14
+	if sz := int(t.Size()); sz > 0 && (1<<19)/sz < limit {
+		limit = (1 << 19) / sz
+	}
+	return limit
 }
 
 func (r *Reader) ReadInto(vals ...interface{}) error {
